@@ -201,6 +201,46 @@ def op(name, w, a, b):
                 k = q[4][2][2]
                 if p[0] == "zext" and width(p[2]) <= k:
                     return op("or", w, a, b)
+    if name == "sub" and is_k(b):
+        return op("add", w, a, K(w, -b[2]))
+    if name in ("add", "or", "and", "xor"):
+        # flatten nested chains, fold constants, sort: canonical left-nested form
+        items, const = [], None
+        stack = [a, b]
+        while stack:
+            x = stack.pop()
+            if x[0] == "op" and x[1] == name and x[2] == w:
+                stack.append(x[3])
+                stack.append(x[4])
+            elif is_k(x):
+                if const is None:
+                    const = x[2]
+                else:
+                    const = {"add": const + x[2], "or": const | x[2], "and": const & x[2], "xor": const ^ x[2]}[name]
+            else:
+                items.append(x)
+        items.sort(key=repr)
+        if name in ("or", "and"):
+            ded = []
+            for x in items:
+                if not ded or ded[-1] != x:
+                    ded.append(x)
+            items = ded
+        ident = {"add": 0, "or": 0, "xor": 0, "and": (1 << w) - 1}[name]
+        if const is not None:
+            const &= (1 << w) - 1
+            if const != ident:
+                if name == "and" and const == 0:
+                    return K(w, 0)
+                if name == "or" and const == (1 << w) - 1:
+                    return K(w, const)
+                items = [K(w, const)] + items
+        if not items:
+            return K(w, ident if const is None else const)
+        acc = items[0]
+        for x in items[1:]:
+            acc = ("op", name, w, acc, x)
+        return acc
     if name in COMM and repr(b) < repr(a):
         a, b = b, a
     return ("op", name, w, a, b)
@@ -280,6 +320,16 @@ def cmp(opn, w, a, b):
         a, b = b, a
     if a == b:
         return TRUE if opn in ("eq", "ule", "sle") else FALSE
+    if opn == "ule" and is_k(a) and a[2] == 0:
+        return TRUE
+    if opn == "ult" and is_k(b) and b[2] == 0:
+        return FALSE
+    if opn == "ule" and is_k(b) and b[2] == (1 << w) - 1:
+        return TRUE
+    if opn == "ult" and is_k(b) and b[2] == 1:
+        return cmp("eq", w, a, K(w, 0))
+    if opn == "ule" and is_k(b) and b[2] == 0:
+        return cmp("eq", w, a, K(w, 0))
     # comparisons of two zero-extensions of same-width values compare the narrow values
     if a[0] == "zext" and b[0] == "zext" and width(a[2]) == width(b[2]) and opn in ("eq", "ne", "ult", "ule"):
         return cmp(opn, width(a[2]), a[2], b[2])
@@ -352,6 +402,8 @@ def show(t):
     if h == "k":
         return ("%#x" % t[2]) if t[2] > 9 else str(t[2])
     if h == "v":
+        if isinstance(t[1], tuple):
+            return "insn[%s].%s" % (show(t[1][1]), t[1][2]) if t[1][0] == "insn" else repr(t[1])
         return t[1]
     if h in ("zext", "sext", "trunc"):
         return "%s%d(%s)" % (h, t[1], show(t[2]))
